@@ -574,7 +574,7 @@ fn run_case(
     // interleave: protocol wants `res` after each op; emit them in order after the ops block
     out.extend(res);
     let t0 = std::time::Instant::now();
-    let (g, built) = build(b);
+    let (g, built) = build_for(id, ops, b);
     out.push(built);
     out.push(format!("timing build_ms={}", t0.elapsed().as_millis()));
     let mut g = match g {
@@ -1043,13 +1043,14 @@ fn enum_main(maxn: usize, part: usize, parts: usize, streams: bool) {
             loop {
                 let mut ch = DfsChooser { prefix: prefix.clone(), arity: vec![], depth: 0, since_change: 0 };
                 let mut out = vec![];
-                out.push(format!("case e{}_{}_{} feat={} shape={}", gi, ci, leaf, FEAT, shape));
+                let cid = format!("e{}_{}_{}", gi, ci, leaf);
+                out.push(format!("case {} feat={} shape={}", cid, FEAT, shape));
                 for op in ops {
                     out.push(op.line());
                 }
                 let (b, res) = apply_ops(ops, "");
                 out.extend(res);
-                let (g, built) = build(b);
+                let (g, built) = build_for(&cid, ops, b);
                 out.push(built);
                 if let Some(mut g) = g {
                     session(&mut g, std::slice::from_ref(cfg), (gi + ci) % 2 == 1, 0, None, &mut out, &mut |v, step| ch.choose(v, step));
